@@ -350,6 +350,9 @@ func (c *SimClient) send(op *Op, msg *ClientComMessage) *Sent {
 				raw = mutateJSON(raw, op.Mut, op.MutArg)
 			}
 		}
+		if len(raw) == 0 {
+			raw = []byte("\n") // an empty body would be a poll, not a message
+		}
 		select {
 		case c.inLP <- raw:
 		default:
